@@ -1468,6 +1468,31 @@ pub fn gen(ctx: &Ctx, emit: &mut dyn FnMut(String)) {
             }
         }
     }
+    // .debug_names headers with one extreme count / size field at a time (the others zero or small): the
+    // unit, bucket, name and abbreviation-table sizes are multiplied and added up, the augmentation
+    // string size is rounded up to a multiple of 4
+    for dwarf64 in [false, true] {
+        for field in 0..7usize {
+            for v in [0xffff_ffffu32, 0xffff_fffe, 0xffff_fffd, 0xffff_fffc, 0x8000_0000, 0x7fff_ffff, 0x4000_0000, 0x2000_0001, 0x1000_0000, 0x0fff_ffff, 5, 1] {
+                for (others, tail) in [(0u32, 0usize), (1, 0), (0, 8), (3, 40)] {
+                    let mut body = vec![5u8, 0, 0, 0];
+                    for f in 0..7 {
+                        body.extend_from_slice(&(if f == field { v } else { others }).to_le_bytes());
+                    }
+                    body.extend(std::iter::repeat(0x41u8).take(tail));
+                    let mut sec = Vec::new();
+                    if dwarf64 {
+                        sec.extend_from_slice(&0xffff_ffffu32.to_le_bytes());
+                        sec.extend_from_slice(&(body.len() as u64).to_le_bytes());
+                    } else {
+                        sec.extend_from_slice(&(body.len() as u32).to_le_bytes());
+                    }
+                    sec.extend(body);
+                    emit(format!("c01 names - le {} -", hex(&sec)));
+                }
+            }
+        }
+    }
     // DW_AT_sibling pointers of every value around an entry with children: before the entry, inside
     // the entry itself (after its first byte, before its end), at its end, at each later entry, past
     // the unit — in every unit-reference form; the sibling fast path of `next_sibling` and of the tree
